@@ -148,7 +148,7 @@ theorem C15_reset_read (w : Bounds α) (t : Table α) (g : Gr) :
 
 /-- everything inference can do to the table of a formula whose world default is `w`: overwrite
 working bounds (`setB`), aggregate onto a row (`aggRow`), the merged downward write
-(`writeMerged`), create rows at the world default (`addg`), `flush()` the working bounds
+(`writeMerged`), create rows at the world default (`addg`), overwrite all working bounds
 (`flushB`) — in any number and order -/
 inductive InferenceWrites (w : Bounds α) : Table α → Table α → Prop
   | refl (t : Table α) : InferenceWrites w t t
@@ -239,6 +239,47 @@ theorem C15_reset_returns_assertion_row (w : Bounds α) (t t' : Table α) (g : G
   rw [C15_reset_returns_data, h1]
   simp only [Option.map_some] at h2 ⊢
   rw [(Table.find?_some h1).2, h2]
+
+/-! ### `flush()` and `reset_world()` assert every stored row -/
+
+/-- `flush()` / `reset_world(b)`: the same groundings are stored, each asserted to be `b` — data
+(leaf) and working bounds alike -/
+theorem C15_assertAll_rows (b : Bounds α) (t : Table α) (g : Gr) :
+    Table.find? (Table.assertAll b t) g = (Table.find? t g).map (fun r => ⟨r.g, b, b⟩) ∧
+      Table.keys (Table.assertAll b t) = Table.keys t :=
+  ⟨Table.find?_assertAll b t g, Table.keys_assertAll b t⟩
+
+/-- after `reset_world(w)` every grounding — stored or not — reads as the new default `w` -/
+theorem C15_resetWorld_reads_world (w : Bounds α) (t : Table α) (g : Gr) :
+    Table.getD w (resetWorldTable w t) g = w := by
+  unfold Table.getD resetWorldTable
+  rw [Table.find?_assertAll]
+  cases Table.find? t g <;> rfl
+
+/-- … and keeps doing so after any inference followed by `reset_bounds()`: no row remembers the
+previous world default or an earlier fact (the leaves are rewritten too) -/
+theorem C15_resetWorld_then_reset (w : Bounds α) (t t' : Table α)
+    (h : InferenceWrites w (resetWorldTable w t) t') (g : Gr) :
+    Table.getD w (Table.resetBounds t') g = w := by
+  rw [C15_reset_after_inference w _ _ h, C15_reset_read]
+  unfold resetWorldTable
+  rw [Table.find?_assertAll]
+  cases Table.find? t g <;> rfl
+
+/-- `flush()`: every stored grounding reads UNKNOWN, immediately and after inference followed by
+`reset_bounds()`; a grounding that is not stored keeps reading as the world default -/
+theorem C15_flush_reads (w : Bounds α) (t t' : Table α) (h : InferenceWrites w (flushTable t) t')
+    (g : Gr) :
+    Table.getD w (flushTable t) g = (if Table.has t g then ⟨0, 1⟩ else w) ∧
+      Table.getD w (Table.resetBounds t') g = (if Table.has t g then ⟨0, 1⟩ else w) := by
+  refine ⟨?_, ?_⟩
+  · unfold Table.getD flushTable Table.has
+    rw [Table.find?_assertAll]
+    cases Table.find? t g <;> rfl
+  · rw [C15_reset_after_inference w _ _ h, C15_reset_read]
+    unfold flushTable Table.has
+    rw [Table.find?_assertAll]
+    cases Table.find? t g <;> rfl
 
 end leaves
 
@@ -586,6 +627,15 @@ def exT15 : Table ℚ :=
 
 example : Table.getD ⟨0, 0⟩ exT15 [0] = ⟨0, 1⟩ ∧ Table.getD ⟨0, 0⟩ exT15 [1] = ⟨1/4, 3/4⟩ ∧
     Table.getD ⟨0, 0⟩ exT15 [2] = ⟨0, 0⟩ ∧ Table.keys exT15 = [[0], [1]] := ⟨rfl, rfl, rfl, rfl⟩
+
+/-- `reset_world(AXIOM)` on it, a tightening, `reset_bounds()`: both the fact and the row read TRUE;
+`flush()` instead: stored rows UNKNOWN, the absent one still FALSE -/
+example : Table.getD ⟨1, 1⟩ (Table.resetBounds (aggRow (resetWorldTable ⟨1, 1⟩ exT15) [1] .both ⟨0, 1/2⟩).1) [1] = ⟨1, 1⟩ ∧
+    Table.getD ⟨1, 1⟩ (resetWorldTable ⟨1, 1⟩ exT15) [0] = ⟨1, 1⟩ ∧
+    Table.getD ⟨0, 0⟩ (Table.resetBounds (flushTable exT15)) [1] = ⟨0, 1⟩ ∧
+    Table.getD ⟨0, 0⟩ (flushTable exT15) [2] = ⟨0, 0⟩ := by
+  refine ⟨?_, ?_, ?_, ?_⟩ <;> simp [exT15, resetWorldTable, flushTable, Table.assertAll, Table.addData, Table.addg,
+    Table.getD, Table.find?, Table.has, Table.resetBounds, aggRow, aggregate, Table.setB]
 
 /-- inference really moves a working bound, `reset_bounds()` really restores the data -/
 example : Table.getD ⟨0, 0⟩ (aggRow exT15 [1] .both ⟨1/2, 1⟩).1 [1] = ⟨1/2, 3/4⟩ ∧
